@@ -48,7 +48,8 @@ def main():
                 continue
             rc, out = sh(f"git apply {patch}", cwd=wt)
             if rc:
-                results[name] = {"error": "patch does not apply: " + out[-300:]}
+                results[name] = {"error": "patch does not apply (rebase it on the current /repo): " + out[-300:]}
+                print(name, json.dumps(results[name]), flush=True)
                 continue
             t = time.time()
             rc, out = sh(f"/venv/bin/python -m dexsim check {pid} --tier {tier}", cwd=ROOT,
